@@ -185,7 +185,7 @@ PROPS = {
         level_note='The handler-program space is finite and stated in coverage.bounded.bound.',
     ),
     'C08': dict(
-        level='other', contracts=['C10', 'C20', 'C02'], frames=['confinement'],
+        level='other', contracts=['C10', 'C20', 'C02', 'C03'], frames=['confinement'],
         technique='bounded run-time contract check with forced thread interleavings (token hand-over at every executed statement of the '
                   'package via sys.settrace; all schedules up to a preemption bound) against the served-alone response; proved: the ts_props '
                   'accessors read and write only the thread-local store of their own instance; the process-wide template cache is published atomically',
@@ -227,7 +227,7 @@ PROPS = {
         trusted_base=['heap model of getattr/setattr/delattr', 'threading.local semantics'],
     ),
     'C11': dict(
-        level='other', contracts=['radix'], frames=[],
+        level='other', contracts=['radix', 'C02'], frames=[],
         technique='bounded model-based contract check: every edit history up to a depth bound (state-merged) compared with a freshly '
                   'built router on all probe paths, name/rule lookups and fired hooks',
         explanation='BOUNDED edit histories over seven rule universes (incl. literal children directly after a filtered wildcard); see coverage.bounded.',
@@ -263,7 +263,7 @@ PROPS = {
         level_note='Bounds are stated in coverage.bounded.bound.',
     ),
     'C07': dict(
-        level='other', contracts=['C07', 'collect'], frames=[],
+        level='other', contracts=['C07', 'collect'], frames=['class_attrs'],
         technique='bounded run-time contract check: encode (independent RFC 7578 encoder) -> POST through Ombott.__call__ -> compare forms/files',
         explanation='BOUNDED field lists, names, contents, boundaries, thresholds and framings; proved: BytesIOProxy read/seek/tell stay inside the '
                     'window [_st,_end) of the buffered body (no byte of another part) and return exactly the window slice; _collect_multipart puts every '
